@@ -123,4 +123,15 @@ def worklist (U : Universe) (choose : List Nat → Nat) : Nat → (List Nat × L
 
 def renderList (l : List Nat) : String := ",".intercalate (l.map toString)
 
+
+/-! ### comparison of groups (`DimensionGroup.__le__` … `__gt__`, `issubset`, `issuperset`, `isdisjoint`):
+the subset order of the name sets -/
+def subsetB (a b : List Nat) : Bool := a.all fun x => b.contains x
+def leB (a b : List Nat) : Bool := subsetB a b
+def geB (a b : List Nat) : Bool := subsetB b a
+def eqB (a b : List Nat) : Bool := subsetB a b && subsetB b a
+def ltB (a b : List Nat) : Bool := subsetB a b && !subsetB b a
+def gtB (a b : List Nat) : Bool := subsetB b a && !subsetB a b
+def disjointB (a b : List Nat) : Bool := a.all fun x => !b.contains x
+
 end Dim
